@@ -12,6 +12,8 @@
 #include <fcppt/impl/codecvt_type.hpp>
 #include <fcppt/optional/object_impl.hpp>
 #include <fcppt/config/external_begin.hpp>
+#include <algorithm>
+#include <cwchar>
 #include <iterator>
 #include <locale>
 #include <string>
@@ -54,6 +56,8 @@ fcppt::optional::object<std::basic_string<Out>> codecvt(
   {
     Out *to_next{nullptr};
 
+    typename buffer_type::size_type const space{buf.write_size()};
+
     std::codecvt_base::result const result((conv.*_function)(
         state,
         from,
@@ -76,15 +80,27 @@ fcppt::optional::object<std::basic_string<Out>> codecvt(
     case std::codecvt_base::error:
       return optional_return_type{};
     case std::codecvt_base::partial:
-      if (written == 0U)
+    {
+      // Either the output space is too small or the input ends with an
+      // incomplete character. The latter is the case if nothing was converted
+      // although there was enough space for any single character.
+      typename buffer_type::size_type const max_length{
+          fcppt::cast::to_unsigned(std::max(conv.max_length(), 1))};
+
+      if (from_next == from && space >= max_length)
       {
-        return optional_return_type{return_type(buf.begin(), buf.end())};
+        return optional_return_type{};
       }
 
-      buf.resize_write_area(buf.read_size() * 2U);
+      buf.resize_write_area(std::max(buf.read_size() * 2U, max_length));
       continue;
+    }
     case std::codecvt_base::ok:
-      return optional_return_type{return_type(buf.begin(), buf.end())};
+      // If the conversion state is not the initial state, then the input ended
+      // in the middle of a character.
+      return std::mbsinit(&state) != 0
+                 ? optional_return_type{return_type(buf.begin(), buf.end())}
+                 : optional_return_type{};
     }
 
     return optional_return_type{};
